@@ -3,8 +3,12 @@
 usage: make_prompt.py <PID> <worktree> -> prints the prompt"""
 import json, sys
 pid, wt = sys.argv[1], sys.argv[2]
+flavour = sys.argv[3] if len(sys.argv) > 3 else ''
 p = [json.loads(l) for l in open('/verif/properties.jsonl') if json.loads(l)['id'] == pid][0]
 mech = '\n'.join('- %s (%s)' % (m['name'], m['where']) for m in p['anchors']['mechanism'])
+extra = ""
+if flavour == "deep":
+    extra = " For this round, at least TWO of the three mutations must be OUTSIDE the functions named in the mechanisms list above: put them in the small helper functions, accessors, iterators, constructors or data-structure modules (for example fast_sets, partitions, bfs_queues, labeled_queues, compact_tables, store, loop_ranges, character_sets, or the private helper functions of the file) that those mechanisms call, directly or indirectly. Avoid the most obvious candidates (a flipped comparison in the main function); prefer a wrong index, a wrong initial value, a lost update, a stale field, a wrong delegation, or an edit that only matters for a second call on the same object."
 print(f"""You are helping to evaluate a verification tool by producing realistic faulty variants ("mutations") of a Rust library. Work ONLY inside the git worktree {wt} (a checkout of the library awslabs/rust-smt-strings: SMT-LIB strings and regular expressions, derivatives, DFA compilation, minimization, character partitions). Do not look at or touch anything outside that directory (in particular not /verif and not /repo). There is no network; build with `cargo build --offline` and run the test suite with `cargo test --offline` inside {wt}.
 
 Here is a semantic property the library is supposed to satisfy:
@@ -28,7 +32,7 @@ Your task: produce THREE different source changes (mutations) to the library, ea
   (a) BREAKS the property above for some input / call sequence,
   (b) still compiles without errors,
   (c) still passes the complete existing test suite (`cargo test --offline` must report all unit tests and doc tests passing with the mutation applied), and
-  (d) needs something specific to manifest: an unusual or boundary input, a particular multi-step sequence of calls, a particular combination of two features, or two cooperating edits that each look fine alone. Do NOT produce changes that ordinary use would expose immediately. Prefer small, plausible edits of the kind a maintainer could make by mistake (an off-by-one, a swapped operand, a dropped case, a wrong guard, a shortcut that is almost always right, a 'refactoring' that changes behaviour in a corner, a helper that is subtly wrong). The three mutations should be in different functions or of clearly different kinds; look beyond the most obvious function: helpers, iterators, constructors and data-structure code that the property's mechanisms depend on are all fair game.
+  (d) needs something specific to manifest: an unusual or boundary input, a particular multi-step sequence of calls, a particular combination of two features, or two cooperating edits that each look fine alone. Do NOT produce changes that ordinary use would expose immediately. Prefer small, plausible edits of the kind a maintainer could make by mistake (an off-by-one, a swapped operand, a dropped case, a wrong guard, a shortcut that is almost always right, a 'refactoring' that changes behaviour in a corner, a helper that is subtly wrong). The three mutations should be in different functions or of clearly different kinds; look beyond the most obvious function: helpers, iterators, constructors and data-structure code that the property's mechanisms depend on are all fair game.{extra}
 
 For each mutation k = 1, 2, 3 create, inside the directory {wt}/mutations/ :
   - m<k>.diff      : a unified diff (output of `git diff` run in {wt}) of the mutation alone relative to the unmodified checkout, touching only files under src/ ;
